@@ -5,7 +5,9 @@ LEAN_MODULE = 'ParsecVerif.Props.C14'
 DRIVERS = ['pv_C14']
 THEOREMS = ['ParsecVerif.C14.C14_slots', 'ParsecVerif.C14.C14_served_once', 'ParsecVerif.C14.C14_progress',
             'ParsecVerif.C14.C14_tags', 'ParsecVerif.C14.C14_window_oldest', 'ParsecVerif.C14.C14_delivery_partial',
-            'ParsecVerif.C14.C14_put_get_tags_collide', 'ParsecVerif.C14.C14_testsome_order_matters']
+            'ParsecVerif.C14.C14_served_once_pass', 'ParsecVerif.C14.C14_progress_create', 'ParsecVerif.C14.fill1_active',
+            'ParsecVerif.C14.C14_put_get_tags_collide', 'ParsecVerif.C14.C14_testsome_order_matters',
+            'ParsecVerif.C14.C14_delivery_order_caveat']
 IMPL = 'parsec/parsec_mpi_funnelled.c'
 ENGINE = 'lean-trace'
 LEVEL = 'other'
@@ -23,7 +25,7 @@ LEVEL_NOTE = ('PARTIAL. Theorem: the bookkeeping state machine (model mirrors mp
               'sampled by the multi-rank runs (checksums, guard zones); the comm-thread wake-up logic, GPU paths, tag unregister/rebuild while requests are in flight, '
               'PARSEC_CONTEXT_FLAG_COMM_MT. Tie to the source: 2-4 real MPI ranks run the real file (#included, interposing the library copy) under random scripts and request-window '
               'settings from 1 upward; every MPI_Testsome outcome, served index, restart and state of the real arrays is replayed through the compiled Lean machine line by line; an '
-              'independent end-to-end oracle checks each message once/intact and each put/get bytes. Two genuine defects are reported (known_findings.json C14 F1, F2).')
+              'independent end-to-end oracle checks each message once/intact and each put/get bytes. Three genuine defects are reported (known_findings.json C14 F1, F2, F3).')
 TECHNIQUE = 'Lean 4 proof (inductive invariants, conservation by permutation, potential argument for the window rotation) + trace acceptance of real multi-rank MPI runs + end-to-end oracle'
 ASSUMPTIONS = ['MPI point-to-point semantics (exactly-once, intact, non-overtaking matching of posted receives) and MPI_Testsome reporting completed indices in increasing order',
                'single communication thread (funnelled mode); put is only called when can_serve() holds (asserted by the code, respected by remote_dep_mpi.c and by the harness)',
@@ -38,10 +40,11 @@ SIZES = [0, 1, 7, 64, 1000, 4096, 4097, 65536, 300000, 1 << 20, 4 << 20]
 
 
 # ------------------------------------------------------------------ generator
-def gen_script(rng, np, nphases, nam, nx, big=False):
+def gen_script(rng, np, nphases, nam, nx, big=False, bipartite=False):
     """A script: phases of bursts of active messages and transfers, each closed by `drain`.  Within a phase
     all transfers between one ordered pair (owner -> peer) use one primitive (see finding F1); messages above the eager
-    limit only flow from one rank per phase (send_am is a blocking MPI_Send)."""
+    limit only flow from one rank per phase (send_am is a blocking MPI_Send).  bipartite: in each phase a rank either only
+    provides or only receives transfer data (needed when dynamic_recv == dynamic, see finding F3)."""
     lines = []
     seq = {}
     xid = 0
@@ -49,6 +52,10 @@ def gen_script(rng, np, nphases, nam, nx, big=False):
         body = []
         large_sender = rng.below(np) if rng.chance(1, 3) else None
         mode = {}
+        givers = [r for r in range(np) if rng.chance(1, 2)] or [0]
+        if len(givers) == np:
+            givers = givers[:-1]
+        takers = [r for r in range(np) if r not in givers]
         for _ in range(rng.range(0, nam)):
             src = rng.below(np) if large_sender is None or rng.chance(1, 2) else large_sender
             dst = (src + 1 + rng.below(np - 1)) % np
@@ -73,6 +80,8 @@ def gen_script(rng, np, nphases, nam, nx, big=False):
         for _ in range(rng.range(0, nx)):
             owner = rng.below(np)
             peer = (owner + 1 + rng.below(np - 1)) % np
+            if bipartite:
+                owner, peer = rng.choice(givers), rng.choice(takers)
             m = mode.setdefault((owner, peer), rng.choice(['get', 'put']))
             size = rng.choice(SIZES[:-2] if not big else SIZES)
             if rng.chance(1, 3):
@@ -118,13 +127,14 @@ SETTINGS_MORE = [(1, 1, 2, 1), (2, 1, 1, 1), (3, 3, 3, 3), (6, 4, 5, 2), (10, 1,
 
 
 # ------------------------------------------------------------------ running one case
-def run_case(ctx, exe, np, setting, lines, tag, timeout=240):
+def run_case(ctx, exe, np, setting, lines, tag, timeout=300, stuck=45):
     """Returns dict(rc, ranks=[raw transcript text per rank], complete, err)."""
     script = ctx.path('script-%s.txt' % tag)
     prefix = ctx.path('out-%s' % tag)
     open(script, 'w').write('\n'.join(lines) + '\n')
     env = dict(ENV)
-    xs = []
+    env['C14_STUCK_S'] = str(stuck)
+    xs = ['-x', 'C14_STUCK_S']
     for n, v in zip(PNAMES, setting):
         env['PARSEC_MCA_' + n] = str(v)
         xs += ['-x', 'PARSEC_MCA_' + n]
@@ -238,10 +248,10 @@ def mixes_put_get(lines):
     return False
 
 
-def evaluate(ctx, res, exe, np, setting, lines, tag, dist, shrink=True):
+def evaluate(ctx, res, exe, np, setting, lines, tag, dist, shrink=True, stuck=45):
     """Run one case, compare with the model, evaluate the oracle.  Returns True if clean."""
-    r = run_case(ctx, exe, np, setting, lines, tag)
-    case = {'np': np, 'setting': list(setting), 'script': lines}
+    r = run_case(ctx, exe, np, setting, lines, tag, stuck=stuck)
+    case = {'np': np, 'setting': list(setting), 'script': lines, 'stuck': stuck}
     parts = [split_rank(t) for t in r['ranks']]
     res.evaluations += sum(len(p[0]) for p in parts)
     clean = True
@@ -255,6 +265,12 @@ def evaluate(ctx, res, exe, np, setting, lines, tag, dist, shrink=True):
                                    'what': 'tag %s registered (rc=%s) after the engine was enabled: a message sent to it was not delivered in 3000 progress calls; tag status stays %s (ENABLE=2, never ACTIVE=3)' % (e[2], e[3], e[5]),
                                    'case': case})
             clean = False
+    stuck = [e for p in parts for e in p[2] if e[1] == 'stuck']
+    if stuck and setting[3] >= setting[2]:
+        res.violations.append({'key': 'F3:deadlock-when-dynamic-recv-quota-equals-dynamic-requests',
+                               'what': 'no request completed for the stuck-detection delay although transfers are outstanding; every dynamic slot holds a receive whose matching send waits in the peer\'s send FIFO: ' + ' || '.join(' '.join(e[2:])[:300] for e in stuck[:2]),
+                               'case': case})
+        return False
     if r['rc'] != 0 and not r['complete']:
         key = 'crash:' + hashlib.md5('\n'.join(lines).encode()).hexdigest()[:10]
         what = 'mpiexec -n %d exited with %d before every rank finished the script: %s' % (np, r['rc'], re.sub(r'\[vm:\d+\][^\n]*\n', '', r['err'])[-500:])
@@ -308,7 +324,7 @@ def load_corpus():
                 ls = [l.strip() for l in open(os.path.join(d, f)) if l.strip()]
                 hdr = dict(x.split('=') for x in ls[0].lstrip('# ').split())
                 cs.append((f, int(hdr['np']), (int(hdr['posted']), int(hdr['tested']), int(hdr['dyn']), int(hdr['recv'])),
-                           [l for l in ls[1:] if not l.startswith('#')]))
+                           [l for l in ls[1:] if not l.startswith('#')], int(hdr.get('stuck', 45))))
     return cs
 
 
@@ -322,17 +338,17 @@ def run(ctx, res, cases=None):
     todo = []
     if cases is None:
         corpus = load_corpus()
-        for (f, np, st, ls) in corpus:
+        for (f, np, st, ls, stuck) in corpus:
             if ctx.quick and not f.startswith(('00', '01')):
                 continue
-            todo.append((np, st, ls, 'c' + f[:3]))
+            todo.append((np, st, ls, 'c' + f[:3], stuck))
         if ctx.quick:
             sets = [SETTINGS_QUICK[(ctx.seed + i) % len(SETTINGS_QUICK)] for i in range(3)]
             for i, st in enumerate(sets):
                 g = rng.fork(i)
                 np = 2 if i < 2 else 3
-                ls = gen_script(g, np, 2, 5, 5) + [gen_tags(g)]
-                todo.append((np, st, ls, 'g%d' % i))
+                ls = gen_script(g, np, 2, 5, 5, bipartite=(st[3] >= st[2])) + [gen_tags(g)]
+                todo.append((np, st, ls, 'g%d' % i, 45))
         else:
             sets = SETTINGS_QUICK + SETTINGS_MORE
             k = 0
@@ -340,24 +356,24 @@ def run(ctx, res, cases=None):
                 for st in sets:
                     g = rng.fork(1000 + k)
                     np = 2 + (k % 3)
-                    ls = gen_script(g, np, g.range(2, 4), 8, 9, big=(k % 5 == 0)) + [gen_tags(g)]
-                    todo.append((np, st, ls, 'g%d' % k))
+                    ls = gen_script(g, np, g.range(2, 4), 8, 9, big=(k % 5 == 0), bipartite=(st[3] >= st[2])) + [gen_tags(g)]
+                    todo.append((np, st, ls, 'g%d' % k, 45))
                     k += 1
     else:
         for i, c in enumerate(cases):
-            todo.append((c['np'], tuple(c['setting']), c['script'], 'r%d' % i))
+            todo.append((c['np'], tuple(c['setting']), c['script'], 'r%d' % i, c.get('stuck', 45)))
     nclean = 0
-    for (np, st, ls, tag) in todo:
-        if evaluate(ctx, res, exe, np, st, ls, tag, dist):
+    for (np, st, ls, tag, stuck) in todo:
+        if evaluate(ctx, res, exe, np, st, ls, tag, dist, stuck=stuck):
             nclean += 1
         if len([v for v in res.violations if not v['key'].startswith('F')]) + len(res.disagreements) >= 3:
             break
     res.rule = ('corpus scripts first, then generated scripts: 2-4 MPI ranks, phases of bursts of active messages (3 stream tags, 0..16384 bytes, messages above the eager '
                 'limit from one sender per phase) and put/get transfers of 0..4 MiB (one primitive per ordered pair and phase), random polls, closed by a drain; request parameters '
                 '(posted, tested, dynamic, dynamic_recv) from (1,1,1,1) upward; distinct = distinct (ranks, setting, script); non-trivial = at least one MPI_Testsome pass completed a request')
-    res.samples = [{'np': np, 'setting': list(st), 'script': ls[:10]} for (np, st, ls, tag) in todo[:3]]
+    res.samples = [{'np': np, 'setting': list(st), 'script': ls[:10]} for (np, st, ls, tag, _) in todo[:3]]
     dist['cases'] = len(todo); dist['clean_cases'] = nclean
-    dist['settings'] = sorted({'%d/%d/%d/%d' % tuple(st) for (_, st, _, _) in todo})
+    dist['settings'] = sorted({'%d/%d/%d/%d' % tuple(st) for (_, st, _, _, _) in todo})
     res.extra['input_distribution'] = dist
 
 
